@@ -248,8 +248,11 @@ class Exec:
             inner = e[2]
             while isinstance(inner, tuple) and inner[0] == "paren":
                 inner = inner[1]
-            if " ".join(str(e[1]).split()) == "uint8_t" and not isinstance(v, tuple) and ops.un_rd_char(ops.b2i(v)) is not None:
-                return ops.un_rd_char(ops.b2i(v))     # (uint8_t) of a plain-char element: the byte stored there
+            if " ".join(str(e[1]).split()) == "uint8_t" and not isinstance(v, tuple) and isinstance(inner, tuple) and inner[0] == "index":
+                # (uint8_t) of a buffer element: the byte stored there - whether it was read through plain char (unspecified sign) or
+                # through uint8_t / a uint8_t view (the value is the byte already)
+                u = ops.un_rd_char(ops.b2i(v))
+                return u if u is not None else ops.b2i(v)
             if " ".join(str(e[1]).split()) == "int" and isinstance(inner, tuple) and inner[0] == "index":
                 # (int) of a string / raw element: every value of char or uint8_t is an int, the conversion preserves the value
                 return ops.b2i(v)
